@@ -19,19 +19,20 @@ const tlaCP = "/opt/veriftools/tla/tla2tools.jar:/opt/veriftools/tla/CommunityMo
 
 // TLCOpts describes one TLC invocation. Dir is relative to /verif (e.g. "spec/env").
 type TLCOpts struct {
-	Dir      string
-	Module   string // module name without .tla
-	Cfg      string // cfg file name inside Dir
-	Simulate bool
-	Num      int // behaviours (simulate)
-	Depth    int // simulate depth
-	Seed     int64
-	Workers  int
-	Timeout  time.Duration
-	Coverage bool
-	Files    map[string][]byte // extra files written into the scratch copy (trace inputs, generated cfgs)
-	DFS      bool              // StateDeque queue (useful for branching trace specs)
-	HeapMB   int
+	Dir           string
+	Module        string // module name without .tla
+	Cfg           string // cfg file name inside Dir
+	Simulate      bool
+	Num           int // behaviours (simulate)
+	Depth         int // simulate depth
+	Seed          int64
+	Workers       int
+	Timeout       time.Duration
+	Coverage      bool
+	Files         map[string][]byte // extra files written into the scratch copy (trace inputs, generated cfgs)
+	CheckDeadlock bool              // keep TLC's deadlock check on (off by default: generating specs end in terminal states)
+	DFS           bool              // StateDeque queue (useful for branching trace specs)
+	HeapMB        int
 	// OnBeh, when set, receives every emitted behaviour as it is printed (streaming);
 	// otherwise behaviours are collected in TLCResult.Beh.
 	OnBeh func(json.RawMessage)
@@ -108,8 +109,9 @@ func (c *Ctx) TLC(o TLCOpts) (*TLCResult, error) {
 		"-workers", strconv.Itoa(o.Workers), "-config", o.Cfg, "-noGenerateSpecTE")
 	if o.Simulate {
 		args = append(args, "-simulate", fmt.Sprintf("num=%d", o.Num), "-depth", strconv.Itoa(o.Depth), "-seed", strconv.FormatInt(o.Seed, 10))
-	} else {
-		args = append(args, "-deadlock")
+	}
+	if !o.CheckDeadlock {
+		args = append(args, "-deadlock") // the flag switches deadlock checking OFF
 	}
 	if o.Coverage {
 		args = append(args, "-coverage", "1")
